@@ -46,6 +46,20 @@ pub mod verif {
 		*YIELD_HOOK.write().unwrap_or_else(|e| e.into_inner()) = hook;
 	}
 
+	static MIN_REF_COUNT_BITS_OVERRIDE: std::sync::atomic::AtomicU8 = std::sync::atomic::AtomicU8::new(0);
+
+	/// Index bits (1..=15) that ref-count tables created or looked for from now on start with; 0
+	/// restores the production value. Only for databases created by the test itself: a database
+	/// must always be opened with the value it was created with.
+	pub fn set_min_ref_count_bits(bits: u8) {
+		assert!(bits < 16);
+		MIN_REF_COUNT_BITS_OVERRIDE.store(bits, std::sync::atomic::Ordering::SeqCst);
+	}
+
+	pub(crate) fn min_ref_count_bits_override() -> u8 {
+		MIN_REF_COUNT_BITS_OVERRIDE.load(std::sync::atomic::Ordering::SeqCst)
+	}
+
 	/// Named point at which a test scheduler may delay or park the calling thread.
 	pub fn yield_point(name: &'static str) {
 		let hook = YIELD_HOOK.read().unwrap_or_else(|e| e.into_inner()).clone();
